@@ -36,6 +36,7 @@ var wlists = [][]string{
 	{"b", "1", "a", "1"},
 	{"ab", "2"},
 	{"c", "1", "b", "2", "a", "1"},
+	{"a", ""}, // an empty value (the state's "deleted" marker): a persisted leaf that a later update replaces
 }
 
 func wname(i int) string {
@@ -142,6 +143,7 @@ type harness struct {
 	nParents int
 	nW       int
 	depth    int
+	ws       []int // the write lists used (indices into wlists); len(ws) == nW
 }
 
 func (h harness) opName(i int) string {
@@ -149,10 +151,10 @@ func (h harness) opName(i int) string {
 	pn := []string{"empty-root", "newest-committed", "previous-committed"}
 	switch {
 	case i < n:
-		return fmt.Sprintf("MemSet(%s,%s)", pn[i/h.nW], wname(i%h.nW))
+		return fmt.Sprintf("MemSet(%s,%s)", pn[i/h.nW], wname(h.ws[i%h.nW]))
 	case i < 2*n:
 		i -= n
-		return fmt.Sprintf("Set(%s,%s)", pn[i/h.nW], wname(i%h.nW))
+		return fmt.Sprintf("Set(%s,%s)", pn[i/h.nW], wname(h.ws[i%h.nW]))
 	}
 	return []string{"Commit(oldest-pending)", "Commit(newest-pending)", "Rollback(oldest-pending)", "Rollback(newest-pending)", "Restart"}[i-2*n]
 }
@@ -200,7 +202,7 @@ func (h harness) seq(r *vx.Run) *vx.Seq[*sys] {
 			if !ok {
 				return ""
 			}
-			w := j % h.nW
+			w := h.ws[j%h.nW]
 			set := &types.StoreSet{StateHash: p.root, KV: mvx.KV(wlists[w]...), Height: p.depth + 1}
 			v := ver{depth: p.depth + 1, content: apply(p.content, w), id: fmt.Sprintf("%x|%d|%d", p.root, w, p.depth+1)}
 			var err error
@@ -362,9 +364,9 @@ func main() {
 	}
 	mk := func(c mvx.Cfg) harness {
 		if r.Quick() {
-			return harness{c, 2, 4, 4}
+			return harness{c, 2, 5, 4, []int{0, 5, 1, 2, 3}}
 		}
-		return harness{c, 3, 5, 5}
+		return harness{c, 3, 6, 5, []int{0, 5, 1, 2, 3, 4}}
 	}
 	if raw, ok := r.Replaying(); ok {
 		var c struct {
